@@ -476,13 +476,29 @@ func (g *Graph) EdgesMatching(pat string) []CondEdge {
 // taken as true: edges contradicting one of them are removed first
 // (restricted dominance).
 func (g *Graph) Dominated(site Point, pat string, assume ...string) (bool, string) {
+	return g.DominatedAny(site, []string{pat}, assume...)
+}
+
+// DominatedAny is Dominated for a disjunction: every path to site crosses an
+// edge establishing a fact that matches at least one of pats.
+func (g *Graph) DominatedAny(site Point, pats []string, assume ...string) (bool, string) {
+	pat := strings.Join(pats, " or ")
+	globAny := func(s string) bool {
+		for _, p := range pats {
+			if Glob(p, s) {
+				return true
+			}
+		}
+		return false
+	}
 	cut := Cut{}
+	assumeCut := Cut{}
 	var matched []CondEdge
 	for _, ce := range g.CondEdges() {
 		hit := false
 		contra := false
 		for _, a := range ce.Atoms {
-			if Glob(pat, a.S) {
+			if globAny(a.S) {
 				hit = true
 			}
 			for _, as := range assume {
@@ -497,6 +513,9 @@ func (g *Graph) Dominated(site Point, pat string, assume ...string) (bool, strin
 		if hit || contra {
 			cut[ce.E] = true
 		}
+		if contra {
+			assumeCut[ce.E] = true
+		}
 	}
 	if len(matched) == 0 {
 		return false, "no edge establishes " + pat
@@ -507,7 +526,7 @@ func (g *Graph) Dominated(site Point, pat string, assume ...string) (bool, strin
 	// kills
 	for _, ce := range matched {
 		for _, a := range ce.Atoms {
-			if !Glob(pat, a.S) {
+			if !globAny(a.S) {
 				continue
 			}
 			for _, v := range a.Vars {
@@ -515,7 +534,7 @@ func (g *Graph) Dominated(site Point, pat string, assume ...string) (bool, strin
 					if d.Kind == DefTypeSwitch || d.Kind == DefParam {
 						continue
 					}
-					if !g.Reachable(g.Entry(), d.At, cut, nil) {
+					if !g.Reachable(g.Entry(), d.At, assumeCut, nil) {
 						continue
 					}
 					if g.Reachable(g.After(d.At), site, cut, nil) {
@@ -546,4 +565,20 @@ func (g *Graph) FactsAt(site Point, assume ...string) []string {
 	}
 	sort.Strings(out)
 	return out
+}
+
+// DominatedFrom reports whether every path from `from` to site crosses an edge
+// establishing a fact matching one of pats.
+func (g *Graph) DominatedFrom(from, site Point, pats []string) bool {
+	cut := Cut{}
+	for _, ce := range g.CondEdges() {
+		for _, a := range ce.Atoms {
+			for _, p := range pats {
+				if Glob(p, a.S) {
+					cut[ce.E] = true
+				}
+			}
+		}
+	}
+	return !g.Reachable(from, site, cut, nil)
 }
